@@ -105,4 +105,16 @@ TEXT = {
         "level_note": TRUST + " Layout and boilerplate are not compared; whether a numeric zero default is displayed is left unasserted.",
         "technique": "property-based testing with a content oracle over generated declarations (rapid)",
     },
+    "C18": {
+        "level_text": "Model-based property-based testing over declaration sequences: a name-table model predicts the exact declaration at which the library must panic (duplicate option name in any alias position, duplicate or ill-formed argument name); surviving applications are probed name by name to show that every listed name addresses exactly its own variable, short for one-letter names and long otherwise.",
+        "design_ref": "DESIGN.md section 5 (C18)",
+        "level_note": TRUST + " Argument names are blank-free strings as the property states.",
+        "technique": "model-based property-based testing over declaration sequences (rapid)",
+    },
+    "C19": {
+        "level_text": "Property-based protocol testing with instrumented value types: the recorded Set/Clear call log of custom types (all eight capability combinations, scripted failures, environment lists) must satisfy the documented protocol at declaration and at parse time, with the token lists checked against the reference semantics' derivations.",
+        "design_ref": "DESIGN.md section 5 (C19)",
+        "level_note": TRUST,
+        "technique": "property-based testing of a call-log invariant with instrumented value types (rapid)",
+    },
 }
